@@ -301,3 +301,13 @@ Definition run_case4 (items : list (graph * list (N * Z) * list (N * Z))) (other
      tlist (fun it : graph * list (N * Z) * list (N * Z) => tstrN (graph_sig_label (fst (fst it)))) items;
      tlist tnat (pattern [] (map (fun it : graph * list (N * Z) * list (N * Z) => graph_sig_label (fst (fst it))) items
                              ++ map graph_sig_label others))].
+
+(* NautyCanonicalizer(edge_attrs=["order"]) (standard_order not selected): the search on the graph with every
+   standard_order removed; the label text of that selection has one field less per edge bit ("1:o" / "0:" instead of
+   "1:o:" / "0::"), which does not change the order of two labels, so the canonical permutation is the same (compared
+   with the implementation on every run) *)
+Definition strip_std (g : graph) : graph :=
+  LG (gnodes g) (map (fun e : N * N * eattr => let '(u, v, a) := e in (u, v, EA3 (eo a) None (et a))) (gedges g)).
+Definition run_case5 (items : list (graph * list (N * Z) * list (N * Z))) (others rule_hs : list graph) : tok :=
+  L [run_case4 items others rule_hs;
+     tlist (fun it : graph * list (N * Z) * list (N * Z) => tlist tN (nauty_perm (strip_std (fst (fst it))))) items].
